@@ -1,25 +1,34 @@
 #!/bin/bash
 # selftest.sh [filter] : must-fail corpus. Every patch in selftest/must_fail is applied (revert_* in reverse) to a scratch
-# copy of /repo; the named property check must report a VIOLATION there. Prints one line per mutant.
+# copy of a snapshot of /repo's HEAD (taken once at start together with a private copy of the verifier binary, the
+# trusted contracts, baselines and known findings, so that work can go on meanwhile); the named property check must
+# report a VIOLATION there with the expected obligation.  Prints one line per mutant.  SELFTEST_JOBS (default 3) in parallel.
 # expectations: selftest/expect.tsv  (patch-file <TAB> property <TAB> substring expected among FAILED/REGRESSED lines)
 cd /verif
 FILTER="${1:-}"
-pass=0; fail=0
-while IFS=$'\t' read -r patch prop expect; do
-  [ -z "$patch" ] && continue
-  case "$patch" in \#*) continue;; esac
-  [ -n "$FILTER" ] && [[ "$patch" != *$FILTER* ]] && continue
+SNAP=$(mktemp -d /tmp/selfsnap.XXXXXX)
+mkdir -p "$SNAP/repo" "$SNAP/verif"
+git -C /repo archive HEAD | tar -x -C "$SNAP/repo"
+cp /verif/bin/govc "$SNAP/govc"
+cp -r /verif/trusted /verif/baseline /verif/known_findings.jsonl "$SNAP/verif/"
+one() {
+  patch="$1"; prop="$2"; SNAP="$3"; shift 3; expect="$*"
   D=$(mktemp -d /tmp/selftest.XXXXXX)
-  cp -r /repo/. "$D/" && rm -rf "$D/.git"
+  cp -r "$SNAP/repo/." "$D/"
   if [[ "$patch" == revert_* ]]; then (cd "$D" && patch -R -p1 -s < /verif/selftest/must_fail/$patch) ; else (cd "$D" && patch -p1 -s < /verif/selftest/must_fail/$patch); fi
-  if [ $? -ne 0 ]; then echo "SELFTEST-ERROR $patch does not apply"; fail=$((fail+1)); rm -rf "$D"; continue; fi
-  out=$(GOVC_TRUSTED_DIR=/verif/trusted GOVC_BASELINE_DIR=/verif/baseline GOVC_KNOWN_FINDINGS=/verif/known_findings.jsonl /verif/bin/govc check "$prop" --repo "$D" --verif "$D.out" 2>&1)
+  if [ $? -ne 0 ]; then echo "SELFTEST-ERROR $patch does not apply"; rm -rf "$D"; return; fi
+  out=$(GOFLAGS=-mod=mod GOPROXY=off GOSUMDB=off GOTOOLCHAIN=local GOVC_TRUSTED_DIR=$SNAP/verif/trusted GOVC_BASELINE_DIR=$SNAP/verif/baseline GOVC_KNOWN_FINDINGS=$SNAP/verif/known_findings.jsonl "$SNAP/govc" check "$prop" --repo "$D" --verif "$D.out" 2>&1)
   if echo "$out" | grep -q "^VIOLATION" && echo "$out" | grep -E "^(FAILED|REGRESSED|load:|  .*undefined)" | grep -qF "$expect"; then
-    echo "caught   $patch [$prop] $expect"; pass=$((pass+1))
+    echo "caught   $patch [$prop] $expect"
   else
-    echo "MISSED   $patch [$prop] expected: $expect"; echo "$out" | grep -E "^(FAILED|REGRESSED|VIOLATION|property|load)" | head -5 | cut -c1-200; fail=$((fail+1))
+    echo "MISSED   $patch [$prop] expected: $expect :: $(echo "$out" | grep -E "^(FAILED|REGRESSED|VIOLATION|property|load)" | head -3 | cut -c1-160 | tr '\n' '|')"
   fi
   rm -rf "$D" "$D.out"
-done < selftest/expect.tsv
-echo "selftest: $pass caught, $fail missed"
-[ $fail -eq 0 ]
+}
+export -f one
+grep -v '^#' selftest/expect.tsv | grep -v '^$' | { [ -n "$FILTER" ] && grep -- "$FILTER" || cat; } | tr '\t' ' ' | xargs -P "${SELFTEST_JOBS:-3}" -L 1 bash -c 'one "$0" "$1" "'"$SNAP"'" "${@:2}"' > "$SNAP/log" 2>&1
+cat "$SNAP/log"
+caught=$(grep -c '^caught' "$SNAP/log"); missed=$(grep -vc '^caught' "$SNAP/log")
+echo "selftest: $caught caught, $missed missed or in error"
+rm -rf "$SNAP"
+[ "$missed" -eq 0 ]
